@@ -61,9 +61,10 @@ func Resolve(events []Event) ([]*Item, string) {
 					if c.Explicit {
 						return IncorrectContext
 					}
-					roots = append(roots, d) // a path-bearing method stands on its own
-					cur = d
-					return OK
+					// a URL block does not admit a method that carries its own path: the walk goes on outwards
+					// (to the top level, or to an enclosing MACRO) - it never leaves an open parenthesis
+					c = c.Parent
+					continue
 				}
 				d.Parent = c
 				c.Children = append(c.Children, d)
